@@ -197,7 +197,12 @@ def driver_histories(tier, seed, kinds=KINDS):
     n = 0
     for kind in kinds:
         for space in ("grid", "graph", "graphloop"):
-            cfgs = cfgs_for(kind, space)
+            cfgs = dict(cfgs_for(kind, space))
+            # runs that are complete before the clock reaches t_max (progress < 100 %): t_max = 0, and - for the exact
+            # engine - a system whose processed initial state is empty, so that no event is ever possible
+            cfgs["D"] = dict(system="decay", space=space, dt=0.5, ts=[0.0], policy="on_t_sample", seed=14)
+            if kind == "gillespie":
+                cfgs["E"] = dict(system="decay", space=space, dt=0.5, ts=[0.0, 0.5], policy="on_t_sample", seed=15, state=[0.3, 0.3, 0.0, 0.0])
             for cid in sorted(cfgs):
                 for pp in (0, 1):
                     shapes = [[["simulate", "e1", cid, pp]],
